@@ -117,7 +117,40 @@ type world struct {
 	n         int
 }
 
+// sigOK is the driver's OWN verdict on the signature (the model reads it as the message's sig bit): every listed
+// signer is a committee member and the signature verifies, as an aggregate, under exactly the listed members' keys.
+// It does not go through the node's VerifyByOperators - a node that accepts what this refuses diverges from the model.
 func (w *world) sigOK(m *specqbft.SignedMessage) bool {
+	var sig bls.Sign
+	if len(m.Signers) == 0 || sig.Deserialize(m.Signature) != nil {
+		return false
+	}
+	pks := make([]bls.PublicKey, 0, len(m.Signers))
+	for _, id := range m.Signers {
+		var op *spectypes.Operator
+		for _, o := range w.committee {
+			if o.OperatorID == id {
+				op = o
+			}
+		}
+		if op == nil {
+			return false
+		}
+		var pk bls.PublicKey
+		if pk.Deserialize(op.PubKey) != nil {
+			return false
+		}
+		pks = append(pks, pk)
+	}
+	root, err := spectypes.ComputeSigningRoot(m, spectypes.ComputeSignatureDomain(domain, spectypes.QBFTSignatureType))
+	if err != nil {
+		return false
+	}
+	return sig.FastAggregateVerify(pks, root[:])
+}
+
+// nodeSigOK: what the node's own signature check says about the message.
+func (w *world) nodeSigOK(m *specqbft.SignedMessage) bool {
 	return ssvtypes.VerifyByOperators(m.Signature, m, domain, spectypes.QBFTSignatureType, w.committee) == nil
 }
 
@@ -831,8 +864,15 @@ func (s *sim) forge(id spectypes.OperatorID) *specqbft.SignedMessage {
 				_ = sm.Aggregate(c)
 			}
 		}
-		if r.Chance(1, 3) { // claim signers that did not sign
+		switch r.Intn(4) {
+		case 0: // claim signers that did not sign
 			sm.Signers = append(sm.Signers, spectypes.OperatorID(1+r.Intn(s.w.n)))
+		case 1: // pad the signer list up to a quorum with ids that are in no committee (nobody's key is needed for them)
+			q := 2*((s.w.n-1)/3) + 1
+			for k := 1; len(sm.Signers) < q+r.Intn(2); k++ {
+				sm.Signers = append(sm.Signers, spectypes.OperatorID(s.w.n+k))
+			}
+			s.stats["byz-decided-padded-with-foreign-ids"]++
 		}
 		s.stats["byz-decided"]++
 		return sm
@@ -1335,6 +1375,16 @@ func decidedOne(out *hx.Out, seed, c uint64, size int) {
 			case 8: // corrupted signature
 				d.Signature = append([]byte{}, d.Signature...)
 				d.Signature[5] ^= 4
+			case 9: // really signed by fewer than a quorum; the signer list padded with ids that are in no committee
+				j := 1 + r.Intn(q-1)
+				if j > len(ids) {
+					j = len(ids)
+				}
+				d = testingutils.MultiSignQBFTMsg(sks[:j], ids[:j], msg)
+				d.FullData = v
+				for k := 1; len(d.Signers) < nsig || len(d.Signers) < q; k++ {
+					d.Signers = append(d.Signers, spectypes.OperatorID(size+k))
+				}
 			}
 			out.Count(fmt.Sprintf("decided-kind-%d-signers-%d-of-%d", kind, nsig, q))
 			nd.deliver(d)
